@@ -115,9 +115,15 @@ def run(ctx):
     dist = {'category': {}, 'nonzero': 0, 'candidates': {}, 'nontame_lists': 0}
     cases = nontrivial = 0
     root = common.scratch_dir('c13')
+    prev_pws = []
     for i in range(ctx.scale(6, 60)):
         tame = i % 4 != 3
         pws = gen_passwords.gen_list(rng, n=rng.randint(10, 30), tame=tame)
+        if i == 0:
+            # whatever the seed: strings in which one terminal occurs twice (its factor must be multiplied twice), next to
+            # strings with two different terminals of the same list
+            pws += ['12love12', '34love34', '12love34', 'love12', 'love34', '!pass!', '#pass!', 'pass#', '7monkey7', '7monkey8',
+                    '2019hello2019', 'hello2019', '1qaz2wsx1qaz', '<3love<3', 'love<3']
         if not tame:
             pws += ['ǆabc1', 'ǆabc1', 'İpass', 'passİ1', 'ǅword', 'ßtrasse1']
             dist['nontame_lists'] += 1
@@ -142,6 +148,10 @@ def run(ctx):
             if p and rng.random() < 0.5:
                 cands.setdefault(p.title(), 'perturbed')
                 cands.setdefault(p.upper(), 'perturbed')
+        # the score depends only on the string and the ruleset: strings that belong to the ruleset scored just before
+        for p in prev_pws[:25]:
+            cands.setdefault(p, 'previous-ruleset')
+        prev_pws = list(dict.fromkeys(pws))
         for s in ['unrelated', 'Zq9!', 'xx', '2031', 'bob@mail.ru', 'www.site.com/x', 'ǅabc1', 'İPASS']:
             cands.setdefault(s, 'unrelated')
         cands = {c: k for c, k in cands.items() if c and '\t' not in c and '\n' not in c}
